@@ -154,6 +154,33 @@ def assume_A1(p):
                 p.assume(f)
 
 
+def _world_syms(f):
+    from pyvc import smt
+
+    return set(x for x in smt.symbols(f) if x[:2] in ("T_", "T.", "G_", "G.", "L_", "L."))
+
+
+def prune_dead_world_facts(p):
+    """drop quantified premises that speak only about world versions no longer
+    reachable (neither the current world nor the `old:` snapshot): removing premises is
+    always sound, and keeps the solver's instantiation work proportional to one state
+    transition instead of the whole history of the path"""
+    from pyvc.sym import _has_quant
+
+    live = set()
+    for v in p.w.values():
+        if is_z3(v):
+            live |= _world_syms(v)
+    keep = []
+    for c in p.pc:
+        if _has_quant(c):
+            ws = _world_syms(c)
+            if ws and not (ws & live):
+                continue
+        keep.append(c)
+    p.pc = keep
+
+
 def snapshot(p):
     return dict(p.w)
 
